@@ -218,8 +218,10 @@ def pValue : Nat → Bytes → Option (JV × Bytes)
         | [] => none
       else none
 
+/-- A BOM is recognised only when at least one more byte follows it (formalisation choice: the
+property's words do not say what a BOM followed by nothing is; every front-end rejects it). -/
 def stripBOM : Bytes → Bytes
-  | 0xEF :: 0xBB :: 0xBF :: r => r
+  | 0xEF :: 0xBB :: 0xBF :: b :: r => b :: r
   | bs => bs
 
 inductive Doc where
